@@ -364,3 +364,35 @@ let cop_of (s : sexp) : cop =
 
 let show_cobs (l : cobs list) : string =
   String.concat " " (List.map (function CKilled k -> Printf.sprintf "(k %d)" (int_of_nat k) | CRet b -> if b then "(rb #t)" else "(rb #f)") l)
+
+let fshape_of (hot : bool) (s : sexp) : fshape =
+  match head s with
+  | "plain" -> FPlain
+  | "take_before" -> FTakeBefore (narg (List.hd (args s)))
+  | "take_after" -> FTakeAfter (hot, narg (List.hd (args s)))
+  | h -> failwith ("bad finalize shape " ^ h)
+
+let zstim_of (s : sexp) : zstim =
+  match s with
+  | Atom "u" | Atom "ud" -> ZUnsub
+  | _ -> ZSrc (ev_of s)
+
+(* one segment per stimulus, each closed by `|` *)
+let show_segs (l : zout list list) : string =
+  let b = Buffer.create 64 in
+  List.iteri (fun i seg ->
+      if i > 0 then Buffer.add_char b ' ';
+      List.iter (fun o -> (match o with ZOut e -> show_ev b e | ZCall -> Buffer.add_string b "call"); Buffer.add_char b ' ') seg;
+      Buffer.add_char b '|') l;
+  Buffer.contents b
+
+let segs_of (impl : string) : zout list list =
+  match parse ("(" ^ impl ^ ")") with
+  | List l ->
+      let (cur, acc) = List.fold_left (fun (cur, acc) x ->
+          match x with
+          | Atom "|" -> ([], List.rev cur :: acc)
+          | Atom "call" -> (ZCall :: cur, acc)
+          | e -> (ZOut (ev_of e) :: cur, acc)) ([], []) l in
+      if cur <> [] then failwith "unterminated segment" else List.rev acc
+  | _ -> []
